@@ -175,7 +175,7 @@ pub fn plan(prop: &str, tier: &str, seed: u64) -> Option<Plan> {
     match prop {
         "C01" | "C03" | "C05" | "C08" | "C10" | "C11" | "C13" | "C16" | "C17" | "C18" | "C20" => {
             p.rule = seq_rule(prop);
-            let (n_rel, secs) = if quick { (1200, 25) } else { (400000, 600) };
+            let (n_rel, secs) = if quick { (3000, 30) } else { (400000, 600) };
             p.jobs = seq_jobs(prop, seed, "rel", 12, n_rel, secs, 0);
             // overflow-checked build: arena panics become observable events
             p.jobs.extend(seq_jobs(prop, seed, "dbg", 4, n_rel / 4, secs, 1_000_000));
@@ -197,6 +197,25 @@ pub fn plan(prop: &str, tier: &str, seed: u64) -> Option<Plan> {
                     j.timeout_s = 900;
                     p.jobs.push(j);
                 }
+            }
+            if prop == "C18" {
+                // read-only part of the statement: truncate(n) fails without effect for every n
+                for variant in ["rel", "dbg"] {
+                    let mut j = Job::new(&format!("files-t-{}", variant), &bin(variant), sv(&["files", "--seed", &seed.to_string(), "--part", "t", "--files", if quick { "6" } else { "48" }]));
+                    j.timeout_s = 600;
+                    p.jobs.push(j);
+                }
+            }
+            if prop == "C08" {
+                // zero-fill on a file reopened after a crash (a slice of the C06 crash-point sweep; its C08-tagged reports count here)
+                for k in 0..2u64 {
+                    let mut j = Job::new(&format!("crash-c08-{}", k), &bin("rel"), sv(&["crash", "--seed", &seed.to_string(), "--from", &k.to_string(), "--stride", "2", "--count", if quick { "12" } else { "600" }, "--secs", if quick { "25" } else { "600" }]));
+                    j.timeout_s = if quick { 200 } else { 2000 };
+                    p.jobs.push(j);
+                }
+                // zero-fill under concurrency: a recycled segment must be zeroed by the time any thread gets it
+                p.jobs.extend(sched_jobs(prop, seed, "A", 2, if quick { 3000 } else { 150000 }, if quick { 25 } else { 600 }, false));
+                p.jobs.extend(sched_jobs(prop, seed, "P", 2, if quick { 3000 } else { 150000 }, if quick { 25 } else { 600 }, false));
             }
             if prop == "C13" {
                 // multi-threaded part: refs() accounting, clone/drop/send of owned buffers under the scheduler
@@ -226,19 +245,20 @@ pub fn plan(prop: &str, tier: &str, seed: u64) -> Option<Plan> {
                 "the reference model states only what the property text and README state; unspecified quantities are adopted from the implementation".into(),
                 "histories keep to the documented safety contracts of the unsafe calls (dealloc of ranges returned by the arena, no use of handles above a rewound cursor)".into(),
                 "sampled, not enumerated: only executed histories are judged".into(),
+                "non-termination of a single-threaded call is judged by a logical budget of 3,000,000 atomic accesses per operation (measured legal maximum reported under maxima), not by a clock; unsync::Arena performs no atomic accesses, so a hang there is only caught by the wall-clock watchdog (inconclusive)".into(),
             ];
             p.extra_prefixes = vec!["axis.", "c01_", "c03_", "c05_", "c08_", "c09_", "c10_", "c13_", "c16_", "c17_", "c18_", "c20_", "release.", "alloc_err."];
             p.required_nonzero = match prop {
                 "C01" => sv(&["release.insert", "c10_slow_path_policy_checks"]),
                 "C03" => sv(&["c03_capacity_alignment_checks", "c03_recycled_typed", "c03_fresh_padded", "zero_size_requests", "c03_address_checks", "c03_concurrent_checks"]),
                 "C05" => sv(&["c05_reopen_checks.MapMut", "c05_reopen_checks.MapCopy", "c05_reopen_checks.Map", "c05_reopen_checks.MapCopyRo"]),
-                "C08" => sv(&["c08_zero_checks_on_dirty_space.recycled", "c08_zero_checks_on_dirty_space.top-released", "c08_zero_checks_on_dirty_space.rewound", "c08_zero_checks.fresh", "c08_zero_checks.fresh-after-reopen"]),
+                "C08" => sv(&["c08_zero_checks_on_dirty_space.recycled", "c08_zero_checks_on_dirty_space.top-released", "c08_zero_checks_on_dirty_space.rewound", "c08_zero_checks.fresh", "c08_zero_checks.fresh-after-reopen", "c08_concurrent_zero_checks_on_recycled_segments", "c08_zero_checks_after_crash_recovery"]),
                 "C10" => sv(&["c10_slow_path_policy_checks", "c10_split_remainders", "c10_whole_segment"]),
                 "C11" => sv(&["c10_slow_path_policy_checks"]),
                 "C13" => sv(&["c13_release_effect_checks", "c13_detach_checks", "c13_value_drop_checks", "c13_backing_checks", "original_arena_dropped_first", "refs_checks"]),
                 "C16" => sv(&["c16_accessor_tables_checked", "c16_first_allocation_checks", "c16_static_cases", "c16_construction_refusals"]),
                 "C17" => sv(&["c17_rewind_checks", "c17_clear_checks", "c17_fresh_twins_started"]),
-                "C18" => sv(&["c18_truncate_checks"]),
+                "C18" => sv(&["c18_truncate_checks", "c18_readonly_truncate_checks", "c18_readonly_truncate_checks_where_the_call_would_be_a_no_op"]),
                 "C20" => sv(&["c20_discard_delta_checks", "c20_discard_freelist_nonempty", "c20_increase_discarded_checks"]),
                 _ => vec![],
             };
@@ -283,7 +303,7 @@ pub fn plan(prop: &str, tier: &str, seed: u64) -> Option<Plan> {
             p.min_eval = 10000;
             p.min_distinct = 8;
             p.rule = "case = (arena: flavour x layout x reserved x capacity 64..520 x fill state, data area above the cursor pre-filled with non-zero continuation bytes) x reader (get_u8/i8, 16 fixed-width be/le readers, 8 varint readers) x offset; every offset 0..=capacity+16 is enumerated, plus usize::MAX-k, isize::MAX+-k, u32::MAX+-k, 2^31+-k, 2^63-k for k<=16; oracle = reference decode of a private copy of memory() (own LEB128 decoder restricted to the bytes below allocated()); distinct_nontrivial = distinct (arena, fill state, flavour, sweep kind) combinations swept".into();
-            for (variant, n) in [("rel", if quick { 24 } else { 400 }), ("dbg", if quick { 8 } else { 100 })] {
+            for (variant, n) in [("rel", if quick { 96 } else { 400 }), ("dbg", if quick { 24 } else { 100 })] {
                 for ext in [false, true] {
                     let mut a = sv(&["readers", "--seed", &seed.to_string(), "--arenas", &n.to_string()]);
                     if ext {
@@ -318,7 +338,7 @@ pub fn plan(prop: &str, tier: &str, seed: u64) -> Option<Plan> {
             p.exhaustive = !quick;
             p.rule = "case = (allocated length, reserved length in {0,1,7,8,9,31,32,63,64}, layout, flavour, Vec/anon backend) with random contents incl. the prefix; quick: page multiples +-2 (also shifted by reserved) and 200 random lengths; thorough: every allocated length 0..=3 pages+1; oracle: checksum(builder) == builder.checksum_one(allocated_memory()[reserved..]) for Crc32 and for a position-dependent streaming hash that also records the chunk lengths (sum must equal the reference length); distinct_nontrivial = distinct (length, reserved, layout, flavour)".into();
             if quick {
-                let mut j = Job::new("cksum-rel", &bin("rel"), sv(&["cksum", "--seed", &seed.to_string()]));
+                let mut j = Job::new("cksum-rel", &bin("rel"), sv(&["cksum", "--seed", &seed.to_string(), "--random", "1500"]));
                 j.timeout_s = 600;
                 p.jobs.push(j);
                 let mut j = Job::new("cksum-dbg", &bin("dbg"), sv(&["cksum", "--seed", &(seed + 1).to_string(), "--random", "50"]));
@@ -344,11 +364,11 @@ pub fn plan(prop: &str, tier: &str, seed: u64) -> Option<Plan> {
             p.eval_counter = "c04_cases";
             p.min_eval = 5000;
             p.min_distinct = 1000;
-            p.rule = "case = (sampled configuration: flavour x freelist x Vec/anon x layout x reserved x min segment size) x arena state (empty, half full, full, full with a multi-segment free list and live neighbours, after rewind; thorough: 4 GiB arenas with the cursor at / 40 bytes below a capacity next to u32::MAX) x call (alloc_bytes, alloc_bytes_owned, alloc_aligned_bytes::<T>(extra) for 7 layouts, alloc::<T>/alloc_owned::<T> for all 16 layouts) x size (boundary-dense around remaining(), capacity, segment sizes, 2^31, u32::MAX - allocated, u32::MAX - capacity, u32::MAX, plus random u32); each case runs on a freshly built arena in an isolated child, in an overflow-checked and an unchecked build; oracle: Err => error kind + (allocated, discarded, remaining, free list) unchanged; Ok => handle inside [data_offset, allocated) within capacity, capacity/alignment as requested, no overlap with live ranges, zero-filled for alloc_bytes, live bytes unchanged; panic / signal => violation attributed through the AT marker; distinct_nontrivial = distinct (configuration, state, call kind, size)".into();
+            p.rule = "case = (sampled configuration: flavour x freelist x Vec/anon x layout x reserved x min segment size) x arena state (empty, half full, full, full with a multi-segment free list and live neighbours, after rewind, file-backed and reopened read-only with map / map_copy_read_only; thorough: 4 GiB arenas with the cursor at / 40 bytes below a capacity next to u32::MAX) x call (alloc_bytes, alloc_bytes_owned, alloc_aligned_bytes::<T>(extra) for 7 layouts, alloc::<T>/alloc_owned::<T> for all 16 layouts) x size (boundary-dense around remaining(), capacity, segment sizes, 2^31, u32::MAX - allocated, u32::MAX - capacity, u32::MAX, plus random u32); each case runs on a freshly built arena in an isolated child, in an overflow-checked and an unchecked build; oracle: Err => error kind + (allocated, discarded, remaining, free list) unchanged; Ok => handle inside [data_offset, allocated) within capacity, capacity/alignment as requested, no overlap with live ranges, zero-filled for alloc_bytes, live bytes unchanged; panic / signal => violation attributed through the AT marker; distinct_nontrivial = distinct (configuration, state, call kind, size)".into();
             let shards = if quick { 6 } else { 12 };
             for variant in ["rel", "dbg"] {
                 for k in 0..shards {
-                    let mut j = Job::new(&format!("iso-c04-{}-{}", variant, k), &bin(variant), sv(&["iso-c04", "--seed", &seed.to_string(), "--cfgs", if quick { "18" } else { "240" }, "--shard", &k.to_string(), "--shards", &shards.to_string()]));
+                    let mut j = Job::new(&format!("iso-c04-{}-{}", variant, k), &bin(variant), sv(&["iso-c04", "--seed", &seed.to_string(), "--cfgs", if quick { "60" } else { "240" }, "--shard", &k.to_string(), "--shards", &shards.to_string()]));
                     j.timeout_s = if quick { 300 } else { 1800 };
                     p.jobs.push(j);
                 }
@@ -368,16 +388,16 @@ pub fn plan(prop: &str, tier: &str, seed: u64) -> Option<Plan> {
                     }
                 }
             }
-            p.required_nonzero = sv(&["c04_successes", "c04_unchanged_after_error_checks"]);
+            p.required_nonzero = sv(&["c04_successes", "c04_unchanged_after_error_checks", "c04_read_only_refusals"]);
             p.extra_prefixes = vec!["c04_"];
-            p.assumptions = vec!["read-only arenas are exercised by C09 and by the read-only sessions of E-SEQ (C05)".into(), "reads/writes outside the backing store are visible as signals, ASan reports (thorough) or corrupted neighbours".into()];
+            p.assumptions = vec!["reads/writes outside the backing store are visible as signals, ASan reports (thorough) or corrupted neighbours".into()];
         }
         "C09" => {
             p.eval_counter = "c09_open_attempts";
             p.min_eval = 1000;
             p.min_distinct = 4;
             p.rule = "part A: valid arena files (both flavours, three freelist kinds, reserved 0..16, non-zero bytes above the cursor) are mutated — each of the 8 identification bytes set to each of 256 values (thorough: x all 4 open variants; quick: a covering subset), truncation to every length 0..=prefix+8, arbitrary-byte files — and the unmodified file is opened with every (variant x expected freelist x expected magic version x capacity option); oracle = 20-line reference of the identification rule for the verdict + byte comparison of the file before/after every refused (and every read-only / private) open; part B: every mutating call of the safe API (+ clear, truncate) on arenas opened with map / map_copy_read_only must return ReadOnly or panic with the documented message, leave allocated/discarded/min segment size/free list and the file bytes unchanged; a crash of the child is a violation; distinct_nontrivial = distinct seed files x sweeps + read-only sessions".into();
-            let nfiles = if quick { "4" } else { "24" };
+            let nfiles = if quick { "12" } else { "24" };
             for variant in ["rel", "dbg"] {
                 let mut a = sv(&["files", "--seed", &seed.to_string(), "--part", "a", "--files", if variant == "dbg" { "2" } else { nfiles }]);
                 if !quick && variant == "rel" {
@@ -502,7 +522,7 @@ pub fn main(args: &Args) -> i32 {
     let m = run_jobs(p.jobs.clone(), p.par, &prop);
     let mut extra: Vec<(String, J)> = vec![];
     extra.push(("steps".into(), J::Int(m.c("steps") as i128)));
-    for k in ["c03_concurrent_checks", "events", "preemptions", "intact_checks", "trace_rule_checks", "handover_checks", "final_free_checks", "refs_checks", "hang_verdicts", "window_sweep_runs", "spurious_cas_failures_injected", "watchdog_hang_sightings", "allocations", "pattern_verifications", "recycled_allocations", "cross_thread_transfers"] {
+    for k in ["c03_concurrent_checks", "c08_concurrent_zero_checks", "c08_concurrent_zero_checks_on_recycled_segments", "events", "preemptions", "intact_checks", "trace_rule_checks", "handover_checks", "final_free_checks", "refs_checks", "hang_verdicts", "window_sweep_runs", "spurious_cas_failures_injected", "watchdog_hang_sightings", "allocations", "pattern_verifications", "recycled_allocations", "cross_thread_transfers"] {
         if m.cnt.contains_key(k) {
             extra.push((k.to_string(), J::Int(m.c(k) as i128)));
         }
